@@ -697,6 +697,18 @@ def rule_m4(repo, res):
     ok = bool(ins) and all(len(n.args) == 2 and norm(n.args[0]) == "index" and norm(n.args[1]) == "(key, value)" for n in ins) and \
         any(isinstance(n, ast.AugAssign) and norm(n.target) == "index" and isinstance(n.op, ast.Add) and norm(n.value) == "1"
             for n in ast.walk(fn))
+    if not ok and ins:
+        # the same positions from a counter: for i, (key, value) in enumerate(<pairs>, start=index): items.insert(i, (key, value))
+        for lp in [n for n in ast.walk(fn) if isinstance(n, ast.For)]:
+            it = lp.iter
+            if isinstance(it, ast.Call) and norm(it.func) == "enumerate" and isinstance(lp.target, ast.Tuple) and len(lp.target.elts) == 2 \
+                    and isinstance(lp.target.elts[0], ast.Name):
+                start = it.args[1] if len(it.args) == 2 else next((k.value for k in it.keywords if k.arg == "start"), None)
+                cnt = lp.target.elts[0].id
+                inside = [n for n in ast.walk(lp) if n in ins]
+                if start is not None and norm(start) == "index" and inside and len(inside) == len(ins) and all(
+                        len(n.args) == 2 and norm(n.args[0]) == cnt and norm(n.args[1]) == norm(lp.target.elts[1]) for n in inside):
+                    ok = True
     res.oblige("M4", f"{CONTAINER}.insert places the pairs at index, index + 1, ...", ok=ok)
     if not ok:
         F("insert", "consecutive indices", "insert no longer places the given pairs at consecutive positions starting at index")
